@@ -46,6 +46,8 @@ type Server struct {
 	// acceptGroup tracks the accept loops and connGroup the connection goroutines, so that Stop can wait for them.
 	acceptGroup sync.WaitGroup
 	connGroup   sync.WaitGroup
+	// dispatchMutex serializes command execution between connections, see dispatch.
+	dispatchMutex sync.Mutex
 }
 
 // NewServer returns a new server instance.
@@ -291,6 +293,15 @@ func (server *Server) receive(conn net.Conn, tlsState *tls.ConnectionState) erro
 	return server.serveConn(handlerConn)
 }
 
+// dispatch executes one request. The requests of all connections are executed one at a time, as Redis executes
+// commands, so that commands composed of several handler calls (INCR, APPEND, MSETNX, ...) and handlers that
+// check before they store are atomic with respect to the other clients.
+func (server *Server) dispatch(conn *Conn, reqMsg *Message) (*Message, error) {
+	server.dispatchMutex.Lock()
+	defer server.dispatchMutex.Unlock()
+	return server.handleMessage(conn, reqMsg)
+}
+
 // serveConn handles a registered client connection.
 func (server *Server) serveConn(handlerConn *Conn) error {
 	conn := handlerConn.Conn
@@ -348,7 +359,7 @@ func (server *Server) serveConn(handlerConn *Conn) error {
 		var resMsg *Message
 		var reqErr error
 
-		resMsg, reqErr = server.handleMessage(handlerConn, reqMsg)
+		resMsg, reqErr = server.dispatch(handlerConn, reqMsg)
 		if reqErr != nil {
 			if !errors.Is(reqErr, ErrQuit) {
 				resMsg = NewErrorMessage(reqErr)
